@@ -340,7 +340,7 @@ class Ctx(object):
         return model_run(entry, cases)
 
 
-def compare(R, ctx, entry, cases, enc_case, impl_fn, key=None, eq=None, limit=20.0):
+def compare(R, ctx, entry, cases, enc_case, impl_fn, key=None, eq=None, limit=20.0, eqc=None):
     """Correspondence of one model entry point: run the implementation (forked workers) and the extracted
     model on the same cases; record disagreements.  Returns the implementation's results."""
     cases = list(cases)
@@ -350,7 +350,7 @@ def compare(R, ctx, entry, cases, enc_case, impl_fn, key=None, eq=None, limit=20
         model = ctx.model(entry, [enc_case(c) for c in cases])
         for c, m, i in zip(cases, model, impl):
             R.compared += 1
-            if not (eq(m, i) if eq is not None else m == i):
+            if not (eqc(c, m, i) if eqc is not None else (eq(m, i) if eq is not None else m == i)):
                 R.disagree(entry, c, m, i)
     for c in cases[:2]:
         R.sample({'entry': entry, 'case': c})
